@@ -91,7 +91,7 @@ def gen_update_opts(rng, info, prior_kind, allow_sub=True, api=None):
 
 def gen_history(rng, cfg=None):
     cfg = cfg or {}
-    g = GT.gen_tree(rng, dict({'top': 'Manifest', 'p_conflict': 0.0, 'p_dup': 0.3, 'p_second_manifest_ref': 0.15, 'second_ref_tags': ['MANIFEST'],
+    g = GT.gen_tree(rng, dict({'top': 'Manifest', 'p_conflict': 0.0, 'p_dup': 0.3, 'p_second_manifest_ref': 0.15, 'second_ref_tags': ['MANIFEST'], 'p_style': 0.1,
                                'p_multi': cfg.get('p_multi', 0.15)}, **cfg.get('tree', {})))
     info = g['info']
     prior = rng.choice(['absent', 'exact', 'stale', 'stale', 'stale', 'stale'])
